@@ -32,12 +32,12 @@ package bpv7
 //@ assigns elems(bs)
 //@ ensures result == nil ==> len(bs) >= 1
 //@ ensures result == nil ==> forall k int :: 0 <= k && k < len(bs) ==> (uint64(bs[k].PrimaryBlock.BundleControlFlags) & 0x01) != 0
-//@ ensures forall k int :: 0 <= k && k < len(bs) ==> blocksNonNil(bs[k])
+//@ ensures forall k int :: 0 <= k && k < len(bs) ==> blocksNonNil(bs[k]) @thorough
 //@ ensures result == nil ==> bs[0].PrimaryBlock.FragmentOffset == 0
 //@ loop 0 invariant 0 <= rangeindex + 1 && rangeindex + 1 <= len(bs)
 //@ loop 0 invariant rangeindex + 1 >= 1 ==> bs[0].PrimaryBlock.FragmentOffset == 0
 //@ loop 0 invariant rangeindex + 1 == 0 ==> lastIndex == 0
-//@ loop 0 invariant forall k int :: 0 <= k && k < len(bs) ==> blocksNonNil(bs[k])
+//@ loop 0 invariant forall k int :: 0 <= k && k < len(bs) ==> blocksNonNil(bs[k]) @thorough
 //@ loop 0 invariant forall k int :: 0 <= k && k < rangeindex + 1 ==> (uint64(bs[k].PrimaryBlock.BundleControlFlags) & 0x01) != 0
 
 // govc:func IsBundleReassemblable property C10 C04
